@@ -367,9 +367,14 @@ class ScipyOptimizeDriver(Driver):
                         ub = upper
                     
                     if linear:
-                        # LinearConstraint
-                        con = LinearConstraint(A=lincongrad[self._con_idx[name]],
-                                               lb=lb, ub=ub, keep_feasible=True)
+                        # LinearConstraint: all rows of this constraint, with the constant part of
+                        # the affine function (its value at the initial point minus A x) moved into
+                        # the bounds
+                        lin_start = self._con_idx[name]
+                        lin_A = lincongrad[lin_start:lin_start + size]
+                        lin_const = self._con_cache[name] - lin_A.dot(x_init)
+                        con = LinearConstraint(A=lin_A, lb=lb - lin_const, ub=ub - lin_const,
+                                               keep_feasible=True)
                         constraints.append(con)
                     else:
                         # NonlinearConstraint
